@@ -51,6 +51,7 @@ type Result struct {
 	Scenario     json.RawMessage `json:"scenario,omitempty"`
 	Key          string          `json:"key"`
 	NonTrivial   bool            `json:"nontrivial"`
+	Recycle      bool            `json:"recycle,omitempty"`
 	Sessions     int             `json:"sessions"`
 	Steps        int             `json:"steps"`
 	Bytes        int64           `json:"bytes"`
@@ -671,6 +672,8 @@ func cmdRun(prop string, args []string) int {
 				res, crashed := w.run(job, tc.JobTimeout)
 				if crashed {
 					cleanupScratch(filepath.Join(w.scratch, "run"))
+				} else if res.Recycle {
+					w.stop() // the worker asked for a fresh process
 				}
 				mu.Lock()
 				agg.add(res)
